@@ -150,6 +150,11 @@ impl Sched {
                 seed: self.seed,
                 window: self.a as u32,
             },
+            "starve" => SchedSpec::Starve {
+                seed: self.seed,
+                est_steps: self.b,
+                victims: self.a as u8,
+            },
             "replay" => SchedSpec::Replay {
                 decisions: rle_decode(&self.decisions_rle),
             },
@@ -167,11 +172,21 @@ impl Sched {
             Some("sticky") => Some(1),
             Some("pct") => Some(2),
             Some("stall") => Some(3),
+            Some("starve") => Some(4),
             _ => None,
         };
         // long runs (thousands of scheduling decisions) get the stall scheduler more often:
         // "one worker falls far behind" needs room to happen
-        let drawn = if est_steps >= 3000 { rng.weighted(&[30, 15, 20, 35]) } else { rng.weighted(&[35, 20, 25, 20]) };
+        // ... and, longer still, the starve scheduler: one worker stopped in the middle of a
+        // record while the others get as far ahead as the input allows (reorder buffers,
+        // turn counters and windows overflow only then)
+        let drawn = if est_steps >= 100_000 {
+            rng.weighted(&[12, 8, 12, 18, 50])
+        } else if est_steps >= 3000 {
+            rng.weighted(&[25, 15, 20, 25, 15])
+        } else {
+            rng.weighted(&[33, 19, 23, 19, 6])
+        };
         match forced.unwrap_or(drawn) {
             0 => Sched {
                 kind: "random".into(),
@@ -192,6 +207,19 @@ impl Sched {
                 seed,
                 a: rng.range(1, 5),
                 b: est_steps.max(4),
+                decisions_rle: vec![],
+            },
+            4 => Sched {
+                kind: "starve".into(),
+                seed,
+                // a = number of victims + 16 when the second victim is taken shortly after
+                // the first (two workers stopped on neighbouring records)
+                a: match rng.below(10) {
+                    0..=4 => 1,
+                    5..=7 => 2 + 16,
+                    _ => 2,
+                },
+                b: est_steps.max(16),
                 decisions_rle: vec![],
             },
             _ => Sched {
